@@ -83,6 +83,7 @@ inductive File (β : Type) where
 inductive SrcVal where
   | none                       -- `None` / attribute missing
   | node (rendered : String)   -- a DOM node; `str(node)` is its rendering
+  | text (s : String)          -- a bare text node (`str` subclass whose `__str__` returns the node itself)
   | val (v : Val)              -- anything else, stored as it is
   deriving Repr, Inhabited
 
@@ -96,6 +97,7 @@ def persistVal : SrcVal → Option Val
   | .none => none
   | .val .none => none
   | .node s => some (.str s)
+  | .text s => some (.str s)          -- `str.__str__(str(value))`: the plain string, never the node
   | .val v => some v
 
 /-- one round of the loop of `Macro.persist` : `value = getattr(self, name, None)`; skip `None`; `attrs[name] = value` -/
@@ -379,5 +381,21 @@ def nodeUrl (urloverride : Option String) (id : String) (v : RenderView) : Strin
 /-- the same node asked for its url in successive renders of one document object -/
 def renderUrls (urloverride : Option String) (id : String) (views : List RenderView) : List String :=
   views.map (nodeUrl urloverride id)
+
+/-! ### `Compile.parse`: which saved files another run restores
+
+`for dirname in [cwd] + paux-dirs: for fname in glob('*.paux'): if basename(fname) == jobname + '.paux': continue;
+context.restore(fname, renderer)`.  The files are given in the order the loops meet them, each with its base name
+(without `.paux`); the job's own name is skipped in every directory, every other file is restored — also a file whose
+name occurred before in another directory. -/
+
+def parseRestores (c : Codec β) (r job : String) : List (String × File β) → Labels → Except Err Labels
+  | [], L => .ok L
+  | (name, f) :: rest, L =>
+    if name = job then parseRestores c r job rest L
+    else
+      match restore c r f L with
+      | .ok L' => parseRestores c r job rest L'
+      | .error e => .error e
 
 end PlasVerif.Model.Persist
